@@ -141,9 +141,9 @@ def run(ctx):
 
     # ---- (2) all trees of depth <= 2: operator part and grammar part -------------------------------------
     t0 = time.time()
-    # LightLemmas stays TRUE for the operator trees (PartialOK / all print modes on the ~30 000 emitted trees of the
+    # LightLemmas stays TRUE for the operator trees (PartialOK / all print modes on the ~35 000 emitted trees of the
     # thorough tier rather than on all 406 125: ~10 ms each); the grammar enumeration runs them on every tree
-    cfg = _cfg(ctx.scratch, "SymDimMC_ops.cfg", "ops_v.cfg", PerClass=40 if thorough else 2, SampleRem=rem,
+    cfg = _cfg(ctx.scratch, "SymDimMC_ops.cfg", "ops_v.cfg", PerClass=20 if thorough else 2, SampleRem=rem,
                LightLemmas="TRUE")
     res = _tlc(ctx, MC, cfg, tag="ops", deadlock=False, timeout=3600 if thorough else 900)
     _design_ok(res, "operator trees: ValueTable RoundTripTree DesugarOK RoundTripValue PartialOK NormalForm Integral")
@@ -154,7 +154,7 @@ def run(ctx):
     # the rounding operators with negated leaves (one symbol: negative non-integer operands at depth 2)
     t0 = time.time()
     cfg = _cfg(ctx.scratch, "SymDimMC_signs.cfg", "signs_v.cfg", PerClass=12 if thorough else 2, SampleRem=rem,
-               LightLemmas="FALSE" if thorough else "TRUE")
+               ClosedBoost=64 if thorough else 8, LightLemmas="FALSE" if thorough else "TRUE")
     res = _tlc(ctx, MC, cfg, tag="signs", deadlock=False, timeout=3600 if thorough else 900)
     _design_ok(res, "signs: ValueTable RoundTripTree DesugarOK RoundTripValue PartialOK NormalForm Integral")
     envs1, strees = _records(res, "signs")
@@ -162,7 +162,7 @@ def run(ctx):
     parts["tlc_signs"] = round(time.time() - t0, 1)
 
     t0 = time.time()
-    cfg = _cfg(ctx.scratch, "SymDimMC_gram.cfg", "gram_v.cfg", PerClass=20 if thorough else 2, SampleRem=rem,
+    cfg = _cfg(ctx.scratch, "SymDimMC_gram.cfg", "gram_v.cfg", PerClass=12 if thorough else 2, SampleRem=rem,
                LightLemmas="FALSE" if thorough else "TRUE")
     res = _tlc(ctx, MC, cfg, tag="gram", deadlock=False, timeout=3600 if thorough else 900)
     _design_ok(res, "grammar trees: RoundTripTree RoundTripValue PartialOK NormalForm Integral")
@@ -313,7 +313,7 @@ def run(ctx):
     ctx.extra.update(
         constants=dict(symbols=["N", "M"], leaf_constants=[1, 2, 3], binding_values=[1, 2, 3, 4],
                        depth_enumerated=2, depth_random=3 if thorough else None,
-                       per_class_ops=40 if thorough else 2, per_class_grammar=20 if thorough else 2,
+                       per_class_ops=20 if thorough else 2, per_class_grammar=12 if thorough else 2, per_class_signs=12 if thorough else 2,
                        sample_rem=rem, shape_strings=len(shapes), shape_symbols=["N", "M", "K"]),
         trees_enumerated_by_tlc=dict(operators=n_enum_ops, signs=n_enum_signs, grammar=n_enum_gram),
         trees_replayed=dict(operators=len(trees), signs=len(strees), grammar=len(gtrees), random_depth3=len(rtrees)),
